@@ -680,6 +680,9 @@ func (tr *trans) applyContract(fc *FuncContract, sig *types.Signature, key strin
 				env2.lets[it.Name] = it.E
 			case "ensures":
 				tr.vc.assume(implies(reach, env2.elabBool(it.E)))
+			case "defines":
+				tr.vc.assume(implies(reach, env2.elabBool(it.E)))
+				tr.note("ghost-state definition of " + key + ": " + it.Src)
 			}
 		}
 	}
